@@ -194,8 +194,7 @@ func (h *Hub) Run() {
 				delete(h.connections, conn)
 				h.connMu.Unlock()
 
-				close(conn.send)
-				h.roomManager.RemoveConnectionFromAllRooms(conn)
+				conn.detach(h.roomManager)
 				h.metrics.DecrementConnections()
 				h.metrics.UnregisterConnection(conn.ID)
 
@@ -241,12 +240,9 @@ func (h *Hub) Run() {
 		case message := <-h.broadcast:
 			h.connMu.Lock()
 			for conn := range h.connections {
-				select {
-				case conn.send <- message:
-				default:
-					close(conn.send)
+				if !conn.trySend(message) {
 					delete(h.connections, conn)
-					h.roomManager.RemoveConnectionFromAllRooms(conn)
+					conn.detach(h.roomManager)
 				}
 			}
 			h.connMu.Unlock()
